@@ -18,7 +18,7 @@ for m in re.finditer(r"^\s+(C\d\d):\s+(.*)$", tr, re.M):
     txt = re.sub(r"replay=\S+", "", txt)
     caught[m.group(1)] = txt[:400]
 meta = {
-    "property": pid, "summary": summary, "needs": needs,
+    "property": pid[:3], "summary": summary, "needs": needs,
     "demo": "%s -> %s/tests/; cargo test -p %s --test %s --offline" % (demo, crate, crate, demo[:-3]),
     "confirmed": [l for l in confirm.splitlines() if l.startswith("---") or l.startswith("test result") or l.startswith("passed") or "FAILED" in l and "types::tests" not in l][:12],
     "caught_by": caught,
